@@ -66,6 +66,45 @@ theorem replaceAll_plain (tok word : Bytes) (htok : tok.head? = some 36) (s : By
     simp only [List.cons_append]
     rw [replaceAll_copy _ _ _ _ hp, ih (fun x hx => hs x (by simp [hx]))]
 
+/-- every `$` of the text is followed, inside the text, by a byte other than `{`: the text contains
+    no `${` and does not end with `$`, so it cannot form a reference with what follows it -/
+def DollarOk : Bytes → Prop
+  | [] => True
+  | [c] => c ≠ 36
+  | c :: d :: r => (c = 36 → d ≠ 123) ∧ DollarOk (d :: r)
+
+theorem dollarOk_of_noByte (s : Bytes) (h : NoByte 36 s) : DollarOk s := by
+  induction s with
+  | nil => trivial
+  | cons c s ih =>
+    cases s with
+    | nil => exact h c (by simp)
+    | cons d r =>
+      exact ⟨fun hc => absurd hc (h c (by simp)), ih (fun x hx => h x (by simp [hx]))⟩
+
+theorem dollarOk_tail {c : UInt8} {s : Bytes} (h : DollarOk (c :: s)) : DollarOk s := by
+  cases s with
+  | nil => trivial
+  | cons d r => exact h.2
+
+/-- a text with only literal `$` is copied by `qstrreplace` when the token starts with `${` -/
+theorem replaceAll_dollarOk (t' word : Bytes) (s : Bytes) (hs : DollarOk s) (rest : Bytes) :
+    replaceAll (36 :: 123 :: t') word (s ++ rest) = s ++ replaceAll (36 :: 123 :: t') word rest := by
+  induction s with
+  | nil => rfl
+  | cons c s ih =>
+    have hp : (36 :: 123 :: t').isPrefixOf (c :: (s ++ rest)) = false := by
+      by_cases hc : c = 36
+      · subst hc
+        cases s with
+        | nil => exact absurd rfl hs
+        | cons d r =>
+          have hd : d ≠ 123 := hs.1 rfl
+          simp [List.isPrefixOf, Ne.symm hd]
+      · simp [List.isPrefixOf, Ne.symm hc]
+    simp only [List.cons_append]
+    rw [replaceAll_copy _ _ _ _ hp, ih (dollarOk_tail hs)]
+
 /-! ### values with references -/
 
 /-- a piece of a value as written: literal text or a reference `${name}` (`name` = key, `%ENV`
@@ -73,6 +112,9 @@ theorem replaceAll_plain (tok word : Bytes) (htok : tok.head? = some 36) (s : By
 inductive Seg where
   | lit (s : Bytes)
   | tok (name val : Bytes)
+  /-- `${pre${inner}post}`: the inner reference stands for `iv`, the composed name `pre iv post`
+      for `val` (one level of nesting) -/
+  | nest (pre inner iv post val : Bytes)
   deriving DecidableEq
 
 def tokStr (name : Bytes) : Bytes := [36, 123] ++ name ++ [125]
@@ -80,14 +122,29 @@ def tokStr (name : Bytes) : Bytes := [36, 123] ++ name ++ [125]
 def Seg.render : Seg → Bytes
   | .lit s => s
   | .tok name _ => tokStr name
+  | .nest pre inner _ post _ => [36, 123] ++ pre ++ tokStr inner ++ post ++ [125]
 
 def Seg.final : Seg → Bytes
   | .lit s => s
   | .tok _ val => val
+  | .nest _ _ _ _ val => val
 
 def Seg.isTok : Seg → Bool
   | .tok _ _ => true
+  | .nest _ _ _ _ _ => true
   | .lit _ => false
+
+/-- the reference the scan resolves first in this piece -/
+def Seg.firstRef : Seg → Option (Bytes × Bytes)
+  | .lit _ => none
+  | .tok name val => some (name, val)
+  | .nest _ inner iv _ _ => some (inner, iv)
+
+/-- substitution rounds this piece needs -/
+def Seg.weight : Seg → Nat
+  | .lit _ => 0
+  | .tok _ _ => 1
+  | .nest _ _ _ _ _ => 2
 
 def renderSegs (l : List Seg) : Bytes := l.flatMap Seg.render
 def finalSegs (l : List Seg) : Bytes := l.flatMap Seg.final
@@ -96,13 +153,17 @@ def finalSegs (l : List Seg) : Bytes := l.flatMap Seg.final
 def NameOk (n : Bytes) : Prop := ∀ c ∈ n, c ≠ 36 ∧ c ≠ 123 ∧ c ≠ 125 ∧ c ≠ 0
 
 def SegOk (w : World) (t : Table) : Seg → Prop
-  | .lit s => NoByte 36 s ∧ NoByte 0 s
-  | .tok name val => NameOk name ∧ resolve w t name = some val ∧ NoByte 36 val ∧ NoByte 0 val
+  | .lit s => DollarOk s ∧ NoByte 0 s
+  | .tok name val => NameOk name ∧ resolve w t name = some val ∧ DollarOk val ∧ NoByte 0 val
+  | .nest pre inner iv post val =>
+    NameOk pre ∧ NameOk inner ∧ NameOk iv ∧ NameOk post ∧ resolve w t inner = some iv ∧
+    resolve w t (pre ++ iv ++ post) = some val ∧ DollarOk val ∧ NoByte 0 val
 
 /-- replace every reference to `name` by its text -/
 def substSeg (name val : Bytes) : Seg → Seg
   | .lit s => .lit s
   | .tok n v => if n = name then .lit val else .tok n v
+  | .nest pre i iv post v => if i = name then .tok (pre ++ val ++ post) v else .nest pre i iv post v
 
 theorem tokStr_head (name : Bytes) : (tokStr name).head? = some 36 := rfl
 theorem tokStr_ne (name : Bytes) : tokStr name ≠ [] := by simp [tokStr]
@@ -129,40 +190,85 @@ theorem tok_prefix_eq (n m rest : Bytes) (hn : NoByte 125 n) (hm : NoByte 125 m)
       simp only [List.cons_append, List.isPrefixOf, Bool.and_eq_true, beq_iff_eq] at h
       rw [h.1, ih m (fun c hc => hn c (by simp [hc])) (fun c hc => hm c (by simp [hc])) h.2]
 
+/-- a token whose name has no `$` is no prefix of a text that reaches a `$` before any `}` -/
+theorem no_prefix_dollar (n : Bytes) : ∀ (m X : Bytes), NoByte 36 n → NoByte 125 m →
+    (n ++ [125]).isPrefixOf (m ++ 36 :: X) = false := by
+  induction n with
+  | nil =>
+    intro m X _ hm
+    cases m with
+    | nil => simp [List.isPrefixOf]
+    | cons b m => simp [List.isPrefixOf, Ne.symm (hm b (by simp))]
+  | cons a n ih =>
+    intro m X hn hm
+    cases m with
+    | nil => simp [List.isPrefixOf, hn a (by simp)]
+    | cons b m =>
+      simp only [List.cons_append, List.isPrefixOf, Bool.and_eq_false_iff]
+      exact Or.inr (ih m X (fun c hc => hn c (by simp [hc])) (fun c hc => hm c (by simp [hc])))
+
+/-- one reference in the text: replaced if it is the token, copied otherwise -/
+theorem replaceAll_tokpiece (name val n rest : Bytes) (hn : NameOk name) (hnn : NameOk n) :
+    replaceAll (tokStr name) val (tokStr n ++ rest) =
+      (if n = name then val else tokStr n) ++ replaceAll (tokStr name) val rest := by
+  by_cases he : n = name
+  · subst he
+    simp only [if_true]
+    exact replaceAll_hit _ _ _ (tokStr_ne n)
+  · simp only [he, if_false]
+    have hp : (tokStr name).isPrefixOf (tokStr n ++ rest) = false := by
+      cases hpp : (tokStr name).isPrefixOf (tokStr n ++ rest) with
+      | false => rfl
+      | true =>
+        exfalso
+        have : (name ++ [125]).isPrefixOf (n ++ 125 :: rest) = true := by
+          simpa [tokStr, List.isPrefixOf] using hpp
+        exact he (tok_prefix_eq name n rest (nameOk_no125 hn) (nameOk_no125 hnn) this).symm
+    have e : tokStr n ++ rest = 36 :: ((123 :: n ++ [125]) ++ rest) := by simp [tokStr]
+    rw [e] at hp ⊢
+    rw [replaceAll_copy _ _ _ _ hp]
+    have hplain : NoByte 36 (123 :: n ++ [125]) := by
+      intro c hc
+      simp only [List.cons_append, List.mem_cons, List.mem_append, List.not_mem_nil, or_false] at hc
+      rcases hc with rfl | hc | rfl
+      · decide
+      · exact nameOk_no36 hnn c hc
+      · decide
+    rw [replaceAll_plain _ _ (tokStr_head name) _ hplain rest]
+    simp [tokStr]
+
 theorem replaceAll_seg (name val : Bytes) (hn : NameOk name) (w : World) (t : Table) (s : Seg) (hs : SegOk w t s)
     (rest : Bytes) :
     replaceAll (tokStr name) val (s.render ++ rest) =
       (substSeg name val s).render ++ replaceAll (tokStr name) val rest := by
   cases s with
-  | lit x => exact replaceAll_plain _ _ (tokStr_head name) x hs.1 rest
+  | lit x => exact replaceAll_dollarOk (name ++ [125]) val x hs.1 rest
   | tok n v =>
     simp only [Seg.render, substSeg]
-    by_cases he : n = name
-    · subst he
-      simp only [if_true, Seg.render]
-      exact replaceAll_hit _ _ _ (tokStr_ne n)
-    · simp only [he, if_false, Seg.render]
-      -- the `$` is copied, the rest of this token is `$`-free
-      have hp : (tokStr name).isPrefixOf (tokStr n ++ rest) = false := by
-        cases hpp : (tokStr name).isPrefixOf (tokStr n ++ rest) with
-        | false => rfl
-        | true =>
-          exfalso
-          have : (name ++ [125]).isPrefixOf (n ++ 125 :: rest) = true := by
-            simpa [tokStr, List.isPrefixOf] using hpp
-          exact he (tok_prefix_eq name n rest (nameOk_no125 hn) (nameOk_no125 hs.1) this).symm
-      have e : tokStr n ++ rest = 36 :: ((123 :: n ++ [125]) ++ rest) := by simp [tokStr]
-      rw [e] at hp ⊢
-      rw [replaceAll_copy _ _ _ _ hp]
-      have hplain : NoByte 36 (123 :: n ++ [125]) := by
-        intro c hc
-        simp only [List.cons_append, List.mem_cons, List.mem_append, List.not_mem_nil, or_false] at hc
-        rcases hc with rfl | hc | rfl
-        · decide
-        · exact nameOk_no36 hs.1 c hc
-        · decide
-      rw [replaceAll_plain _ _ (tokStr_head name) _ hplain rest]
-      simp [tokStr]
+    rw [replaceAll_tokpiece name val n rest hn hs.1]
+    by_cases he : n = name <;> simp [he, Seg.render]
+  | nest pre i iv post v =>
+    obtain ⟨hpre, hi, _, hpost, _⟩ := hs
+    simp only [Seg.render, substSeg]
+    have e : [36, 123] ++ pre ++ tokStr i ++ post ++ [125] ++ rest =
+        36 :: ((123 :: pre) ++ (tokStr i ++ ((post ++ [125]) ++ rest))) := by simp
+    have hp : (tokStr name).isPrefixOf (36 :: ((123 :: pre) ++ (tokStr i ++ ((post ++ [125]) ++ rest)))) = false := by
+      have := no_prefix_dollar name pre (123 :: (i ++ [125] ++ ((post ++ [125]) ++ rest))) (nameOk_no36 hn) (nameOk_no125 hpre)
+      simpa [tokStr, List.isPrefixOf] using this
+    rw [e, replaceAll_copy _ _ _ _ hp]
+    have hplain1 : NoByte 36 (123 :: pre) := by
+      intro c hc
+      rcases List.mem_cons.mp hc with rfl | hc
+      · decide
+      · exact nameOk_no36 hpre c hc
+    have hplain2 : NoByte 36 (post ++ [125]) := by
+      intro c hc
+      rcases List.mem_append.mp hc with hc | hc
+      · exact nameOk_no36 hpost c hc
+      · simp at hc; subst hc; decide
+    rw [replaceAll_plain _ _ (tokStr_head name) _ hplain1, replaceAll_tokpiece name val i _ hn hi,
+      replaceAll_plain _ _ (tokStr_head name) _ hplain2]
+    by_cases he : i = name <;> simp [he, Seg.render, tokStr]
 
 theorem replaceAll_segs (name val : Bytes) (hn : NameOk name) (w : World) (t : Table) (l : List Seg)
     (hl : ∀ s ∈ l, SegOk w t s) :
@@ -176,20 +282,28 @@ theorem replaceAll_segs (name val : Bytes) (hn : NameOk name) (w : World) (t : T
 
 /-! ### the scan finds the first reference -/
 
-theorem outerScan_skip (w : World) (t : Table) (s : Bytes) (h36 : NoByte 36 s) (h0 : NoByte 0 s) (tail : Bytes) :
+theorem outerScan_skip (w : World) (t : Table) (s : Bytes) (h36 : DollarOk s) (h0 : NoByte 0 s) (tail : Bytes) :
     ∀ (fuel : Nat), outerScan w t (fuel + s.length) (s ++ tail) = outerScan w t fuel tail := by
   induction s with
   | nil => intro fuel; rfl
   | cons c s ih =>
     intro fuel
-    have hc36 : c ≠ 36 := h36 c (by simp)
     have hc0 : c ≠ 0 := h0 c (by simp)
     have e : fuel + (c :: s).length = (fuel + s.length) + 1 := by simp [Nat.add_assoc]
     rw [e]
     simp only [List.cons_append]
     conv => lhs; unfold outerScan
-    simp only [hc0, hc36, if_false]
-    exact ih (fun x hx => h36 x (by simp [hx])) (fun x hx => h0 x (by simp [hx])) fuel
+    have ih' := ih (dollarOk_tail h36) (fun x hx => h0 x (by simp [hx])) fuel
+    by_cases hc : c = 36
+    · subst hc
+      cases s with
+      | nil => exact absurd rfl h36
+      | cons d r =>
+        have hd : d ≠ 123 := h36.1 rfl
+        simp only [hc0, if_false, if_true, List.cons_append, ne_eq, hd, not_false_eq_true]
+        exact ih'
+    · simp only [hc0, hc, if_false]
+      exact ih'
 
 theorem innerScan_name (n : Bytes) (hn : NameOk n) (R : Bytes) : ∀ (acc : Bytes),
     innerScan (n ++ 125 :: R) 1 acc = .ok (.closed (acc.reverse ++ n) R) := by
@@ -204,10 +318,23 @@ theorem innerScan_name (n : Bytes) (hn : NameOk n) (R : Bytes) : ∀ (acc : Byte
     rw [ih (fun x hx => hn x (by simp [hx])) (c :: acc)]
     simp
 
+theorem innerScan_nested (n : Bytes) (hn : NameOk n) (R : Bytes) : ∀ (br : Nat) (acc : Bytes),
+    innerScan (n ++ 36 :: 123 :: R) br acc = .ok (.nested (36 :: 123 :: R)) := by
+  induction n with
+  | nil => intro br acc; simp [innerScan]
+  | cons c n ih =>
+    intro br acc
+    obtain ⟨h36, h123, h125, h0⟩ := hn c (by simp)
+    simp only [List.cons_append]
+    unfold innerScan
+    simp only [h0, h36, h123, h125, if_false]
+    exact ih (fun x hx => hn x (by simp [hx])) br (c :: acc)
+
 def firstTok : List Seg → Option (Bytes × Bytes)
   | [] => none
   | .lit _ :: l => firstTok l
   | .tok name val :: _ => some (tokStr name, val)
+  | .nest _ inner iv _ _ :: _ => some (tokStr inner, iv)
 
 theorem outerScan_segs (w : World) (t : Table) (l : List Seg) (hl : ∀ s ∈ l, SegOk w t s) :
     ∀ (fuel : Nat), (renderSegs l).length < fuel →
@@ -244,6 +371,26 @@ theorem outerScan_segs (w : World) (t : Table) (l : List Seg) (hl : ∀ s ∈ l,
         rw [innerScan_name name hn _ []]
         simp only [List.reverse_nil, List.nil_append, hres]
         simp [tokStr]
+    | nest pre i iv post v =>
+      obtain ⟨hpre, hi, _, _, hres, _⟩ := hs
+      simp only [renderSegs, List.flatMap_cons, Seg.render, firstTok] at hf ⊢
+      have e : [36, 123] ++ pre ++ tokStr i ++ post ++ [125] ++ List.flatMap Seg.render l ++ [0] =
+          36 :: 123 :: (pre ++ 36 :: 123 :: (i ++ 125 :: (post ++ [125] ++ List.flatMap Seg.render l ++ [0]))) := by
+        simp [tokStr]
+      have hlen : 2 ≤ fuel := by
+        simp only [List.length_append, List.length_cons, List.length_nil] at hf; omega
+      obtain ⟨f, rfl⟩ : ∃ f, fuel = f + 1 + 1 := ⟨fuel - 2, by omega⟩
+      rw [e]
+      unfold outerScan
+      have a : ¬ ((36 : UInt8) = 0) := by decide
+      simp only [a, if_false, if_true, ne_eq, not_true_eq_false]
+      rw [innerScan_nested pre hpre _ 1 []]
+      simp only []
+      unfold outerScan
+      simp only [a, if_false, if_true, ne_eq, not_true_eq_false]
+      rw [innerScan_name i hi _ []]
+      simp only [List.reverse_nil, List.nil_append, hres]
+      simp [tokStr]
 
 theorem firstTok_none_plain (l : List Seg) (h : firstTok l = none) : ∀ s ∈ l, s.isTok = false := by
   induction l with
@@ -256,6 +403,7 @@ theorem firstTok_none_plain (l : List Seg) (h : firstTok l = none) : ∀ s ∈ l
       · rfl
       · exact ih (by simpa [firstTok] using h) s hs'
     | tok n v => simp [firstTok] at h
+    | nest pre i iv post v => simp [firstTok] at h
 
 theorem final_eq_render_of_plain (l : List Seg) (h : ∀ s ∈ l, s.isTok = false) : finalSegs l = renderSegs l := by
   induction l with
@@ -266,70 +414,131 @@ theorem final_eq_render_of_plain (l : List Seg) (h : ∀ s ∈ l, s.isTok = fals
       simp only [finalSegs, renderSegs, List.flatMap_cons, Seg.final, Seg.render] at ih ⊢
       rw [ih (fun s hs => h s (by simp [hs]))]
     | tok n v => have := h (.tok n v) (by simp); simp [Seg.isTok] at this
+    | nest pre i iv post v => have := h (.nest pre i iv post v) (by simp); simp [Seg.isTok] at this
 
 /-! ### the expansion loop on a value with references -/
 
-def countTok (l : List Seg) : Nat := (l.filter Seg.isTok).length
+/-- substitution rounds the value needs: one per reference, two per nested reference -/
+def countTok (l : List Seg) : Nat := (l.map Seg.weight).sum
 
-def segBound (s : Seg) : Nat := max s.render.length s.final.length
+/-- the largest text a piece goes through -/
+def segBound : Seg → Nat
+  | .lit s => s.length
+  | .tok name val => max (tokStr name).length val.length
+  | .nest pre inner iv post val =>
+    max (Seg.nest pre inner iv post val).render.length (max (tokStr (pre ++ iv ++ post)).length val.length)
+
 def bound (l : List Seg) : Nat := (l.map segBound).sum
 
+/-- the first reference found: it belongs to a piece of the value -/
 theorem firstTok_some (l : List Seg) (ts v : Bytes) (h : firstTok l = some (ts, v)) :
-    ∃ name, ts = tokStr name ∧ Seg.tok name v ∈ l := by
+    ∃ name s, ts = tokStr name ∧ s ∈ l ∧ s.firstRef = some (name, v) := by
   induction l with
   | nil => simp [firstTok] at h
   | cons x l ih =>
     cases x with
     | lit y =>
-      obtain ⟨name, h1, h2⟩ := ih (by simpa [firstTok] using h)
-      exact ⟨name, h1, by simp [h2]⟩
+      obtain ⟨name, s, h1, h2, h3⟩ := ih (by simpa [firstTok] using h)
+      exact ⟨name, s, h1, by simp [h2], h3⟩
     | tok n v' =>
       simp only [firstTok, Option.some.injEq, Prod.mk.injEq] at h
-      exact ⟨n, h.1.symm, by simp [h.2]⟩
+      exact ⟨n, .tok n v', h.1.symm, by simp, by simp [Seg.firstRef, h.2]⟩
+    | nest pre i iv post v' =>
+      simp only [firstTok, Option.some.injEq, Prod.mk.injEq] at h
+      exact ⟨i, .nest pre i iv post v', h.1.symm, by simp, by simp [Seg.firstRef, h.2]⟩
+
+theorem weight_subst_le (name val : Bytes) (s : Seg) : (substSeg name val s).weight ≤ s.weight := by
+  cases s with
+  | lit y => exact Nat.le_refl _
+  | tok n v => simp only [substSeg]; split <;> simp [Seg.weight]
+  | nest pre i iv post v => simp only [substSeg]; split <;> simp [Seg.weight]
+
+theorem weight_subst_lt (name val v : Bytes) (s : Seg) (h : s.firstRef = some (name, v)) :
+    (substSeg name val s).weight < s.weight := by
+  cases s with
+  | lit y => simp [Seg.firstRef] at h
+  | tok n v' =>
+    simp only [Seg.firstRef, Option.some.injEq, Prod.mk.injEq] at h
+    simp [substSeg, h.1, Seg.weight]
+  | nest pre i iv post v' =>
+    simp only [Seg.firstRef, Option.some.injEq, Prod.mk.injEq] at h
+    simp [substSeg, h.1, Seg.weight]
 
 theorem countTok_subst_le (name val : Bytes) (l : List Seg) : countTok (l.map (substSeg name val)) ≤ countTok l := by
   induction l with
   | nil => simp [countTok]
   | cons x l ih =>
-    cases x with
-    | lit y => simpa [countTok, substSeg, Seg.isTok] using ih
-    | tok n v =>
-      simp only [countTok, List.map_cons, substSeg] at ih ⊢
-      by_cases he : n = name
-      · simp only [he, if_true, List.filter_cons, Seg.isTok, Bool.false_eq_true, if_false, List.length_cons]
-        omega
-      · simp only [he, if_false, List.filter_cons, Seg.isTok, if_true, List.length_cons]
-        omega
+    have := weight_subst_le name val x
+    simp only [countTok, List.map_cons, List.sum_cons] at ih ⊢
+    omega
 
-theorem countTok_subst_lt (name val v : Bytes) (l : List Seg) (h : Seg.tok name v ∈ l) :
-    countTok (l.map (substSeg name val)) < countTok l := by
+theorem countTok_subst_lt (name val v : Bytes) (l : List Seg) (s : Seg) (hs : s ∈ l)
+    (h : s.firstRef = some (name, v)) : countTok (l.map (substSeg name val)) < countTok l := by
   induction l with
-  | nil => simp at h
+  | nil => simp at hs
   | cons x l ih =>
-    rcases List.mem_cons.mp h with rfl | h'
-    · have := countTok_subst_le name val l
-      simp only [countTok, List.map_cons, substSeg, if_true, List.filter_cons, Seg.isTok, Bool.false_eq_true,
-        if_false, List.length_cons] at this ⊢
+    simp only [countTok, List.map_cons, List.sum_cons]
+    rcases List.mem_cons.mp hs with rfl | hs'
+    · have h1 := weight_subst_lt name val v s h
+      have h2 := countTok_subst_le name val l
+      simp only [countTok] at h2
       omega
-    · have := ih h'
-      cases x with
-      | lit y => simpa [countTok, substSeg, Seg.isTok] using this
-      | tok n v' =>
-        simp only [countTok, List.map_cons, substSeg] at this ⊢
-        by_cases he : n = name
-        · simp only [he, if_true, List.filter_cons, Seg.isTok, Bool.false_eq_true, if_false, List.length_cons]
-          omega
-        · simp only [he, if_false, List.filter_cons, Seg.isTok, if_true, List.length_cons]
-          omega
+    · have h1 := weight_subst_le name val x
+      have h2 := ih hs'
+      simp only [countTok] at h2
+      omega
+
+theorem countTok_pos (l : List Seg) (s : Seg) (hs : s ∈ l) (name v : Bytes) (h : s.firstRef = some (name, v)) :
+    0 < countTok l := by
+  induction l with
+  | nil => simp at hs
+  | cons x l ih =>
+    simp only [countTok, List.map_cons, List.sum_cons]
+    rcases List.mem_cons.mp hs with rfl | hs'
+    · cases s with
+      | lit y => simp [Seg.firstRef] at h
+      | tok n v' => simp only [Seg.weight]; omega
+      | nest pre i iv post v' => simp only [Seg.weight]; omega
+    · have := ih hs'; simp only [countTok] at this; omega
+
+theorem nameOk_append {a b : Bytes} (ha : NameOk a) (hb : NameOk b) : NameOk (a ++ b) := by
+  intro c hc
+  rcases List.mem_append.mp hc with h | h
+  · exact ha c h
+  · exact hb c h
+
+/-- the facts about the reference being resolved that a piece of the value provides -/
+theorem firstRef_facts (w : World) (t : Table) (s : Seg) (hs : SegOk w t s) (name v : Bytes)
+    (h : s.firstRef = some (name, v)) :
+    NameOk name ∧ resolve w t name = some v ∧ DollarOk v ∧ NoByte 0 v := by
+  cases s with
+  | lit y => simp [Seg.firstRef] at h
+  | tok n v' =>
+    simp only [Seg.firstRef, Option.some.injEq, Prod.mk.injEq] at h
+    obtain ⟨rfl, rfl⟩ := h
+    exact hs
+  | nest pre i iv post v' =>
+    simp only [Seg.firstRef, Option.some.injEq, Prod.mk.injEq] at h
+    obtain ⟨rfl, rfl⟩ := h
+    obtain ⟨_, hi, hiv, _, hres, _⟩ := hs
+    exact ⟨hi, hres, dollarOk_of_noByte _ (nameOk_no36 hiv), fun c hc => (hiv c hc).2.2.2⟩
 
 theorem segOk_subst (w : World) (t : Table) (name val : Bytes) (hres : resolve w t name = some val)
-    (h36 : NoByte 36 val) (h0 : NoByte 0 val) (s : Seg) (hs : SegOk w t s) : SegOk w t (substSeg name val s) := by
+    (h36 : DollarOk val) (h0 : NoByte 0 val) (s : Seg) (hs : SegOk w t s) : SegOk w t (substSeg name val s) := by
   cases s with
   | lit y => exact hs
   | tok n v =>
     simp only [substSeg]
     by_cases he : n = name
     · simp only [he, if_true]; exact ⟨h36, h0⟩
+    · simp only [he, if_false]; exact hs
+  | nest pre i iv post v =>
+    simp only [substSeg]
+    by_cases he : i = name
+    · obtain ⟨hpre, hi, hiv, hpost, hri, hrv, hd, hz⟩ := hs
+      have hv : val = iv := by rw [he, hres] at hri; exact Option.some.inj hri
+      simp only [he, if_true, hv]
+      exact ⟨nameOk_append (nameOk_append hpre hiv) hpost, hrv, hd, hz⟩
     · simp only [he, if_false]; exact hs
 
 theorem final_subst (w : World) (t : Table) (name val : Bytes) (hres : resolve w t name = some val)
@@ -351,6 +560,9 @@ theorem final_subst (w : World) (t : Table) (name val : Bytes) (hres : resolve w
         simp only [he, if_true, Seg.final]
         exact (Option.some.inj this)
       · simp only [he, if_false]
+    | nest pre i iv post v =>
+      simp only [substSeg]
+      by_cases he : i = name <;> simp [he, Seg.final]
 
 theorem segBound_subst (w : World) (t : Table) (name val : Bytes) (hres : resolve w t name = some val)
     (s : Seg) (hs : SegOk w t s) : segBound (substSeg name val s) ≤ segBound s := by
@@ -362,7 +574,16 @@ theorem segBound_subst (w : World) (t : Table) (name val : Bytes) (hres : resolv
     · have := hs.2.1
       rw [he, hres] at this
       have hv : val = v := Option.some.inj this
-      simp only [he, if_true, segBound, Seg.render, Seg.final, hv]
+      simp only [he, if_true, segBound, hv]
+      omega
+    · simp only [he, if_false]; exact Nat.le_refl _
+  | nest pre i iv post v =>
+    simp only [substSeg]
+    by_cases he : i = name
+    · have := hs.2.2.2.2.1
+      rw [he, hres] at this
+      have hv : val = iv := Option.some.inj this
+      simp only [he, if_true, segBound, hv]
       omega
     · simp only [he, if_false]; exact Nat.le_refl _
 
@@ -376,16 +597,22 @@ theorem bound_subst (w : World) (t : Table) (name val : Bytes) (hres : resolve w
     simp only [bound, List.map_cons, List.sum_cons] at h2 ⊢
     omega
 
+theorem render_le_segBound (x : Seg) : x.render.length ≤ segBound x := by
+  cases x with
+  | lit y => exact Nat.le_refl _
+  | tok n v => simp only [segBound, Seg.render]; omega
+  | nest pre i iv post v => simp only [segBound]; omega
+
 theorem render_le_bound (l : List Seg) : (renderSegs l).length ≤ bound l := by
   induction l with
   | nil => simp [renderSegs, bound]
   | cons x l ih =>
     simp only [renderSegs, bound, List.flatMap_cons, List.length_append, List.map_cons, List.sum_cons] at ih ⊢
-    have : x.render.length ≤ segBound x := by simp only [segBound]; omega
+    have := render_le_segBound x
     omega
 
-/-- the expansion of a value whose references all resolve to `$`-free text: every reference is
-    replaced by the text it stands for -/
+/-- the expansion of a value whose references (plain, or nested one level) all resolve to text
+    without `${`: every reference is replaced by the text it stands for -/
 theorem parsestrLoop_segs (w : World) (t : Table) (left : Nat) : ∀ (l : List Seg),
     (∀ s ∈ l, SegOk w t s) → countTok l ≤ left → bound l ≤ maxValueSize →
     parsestrLoop w t left (renderSegs l) = .ok (some (finalSegs l)) := by
@@ -400,10 +627,8 @@ theorem parsestrLoop_segs (w : World) (t : Table) (left : Nat) : ∀ (l : List S
       rw [final_eq_render_of_plain l (firstTok_none_plain l hft)]
     | some x =>
       obtain ⟨ts, v⟩ := x
-      obtain ⟨name, _, hmem⟩ := firstTok_some l ts v hft
-      have : 0 < countTok l := by
-        unfold countTok
-        exact List.length_pos_iff.mpr (List.ne_nil_of_mem (List.mem_filter.mpr ⟨hmem, rfl⟩))
+      obtain ⟨name, s0, _, hmem, hfr⟩ := firstTok_some l ts v hft
+      have := countTok_pos l s0 hmem name v hfr
       omega
   | succ left ih =>
     intro l hl hc hb
@@ -415,21 +640,21 @@ theorem parsestrLoop_segs (w : World) (t : Table) (left : Nat) : ∀ (l : List S
       rw [final_eq_render_of_plain l (firstTok_none_plain l hft)]
     | some x =>
       obtain ⟨ts, v⟩ := x
-      obtain ⟨name, hts, hmem⟩ := firstTok_some l ts v hft
-      obtain ⟨hn, hres, h36, h0⟩ := hl _ hmem
+      obtain ⟨name, s0, hts, hmem, hfr⟩ := firstTok_some l ts v hft
+      obtain ⟨hn, hres, h36, h0⟩ := firstRef_facts w t s0 (hl _ hmem) name v hfr
       subst hts
       simp only []
       rw [replaceAll_segs name v hn w t l hl]
       have hl' : ∀ s ∈ l.map (substSeg name v), SegOk w t s := by
         intro s hs
-        obtain ⟨s0, hs0, rfl⟩ := List.mem_map.mp hs
-        exact segOk_subst w t name v hres h36 h0 s0 (hl s0 hs0)
+        obtain ⟨s1, hs1, rfl⟩ := List.mem_map.mp hs
+        exact segOk_subst w t name v hres h36 h0 s1 (hl s1 hs1)
       have hb' : bound (l.map (substSeg name v)) ≤ maxValueSize :=
         Nat.le_trans (bound_subst w t name v hres l hl) hb
       have hlen : ¬ ((renderSegs (l.map (substSeg name v))).length > maxValueSize) := by
         have := render_le_bound (l.map (substSeg name v)); omega
       simp only [hlen, if_false]
-      rw [ih _ hl' (by have := countTok_subst_lt name v v l hmem; omega) hb']
+      rw [ih _ hl' (by have := countTok_subst_lt name v v l s0 hmem hfr; omega) hb']
       rw [final_subst w t name v hres l hl]
 
 /-! ### documents whose values contain references -/
